@@ -524,6 +524,11 @@ Target == \E c \in Consumers, o \in Consumers :
                  /\ LET lv == FindV(pl[s.auto], now, now) IN lv # NONE /\ (s.auto # s.pi \/ lv # s.pb)
                  /\ Holds(o, s.pi, s.pb) >= 1
 NoTarget == ~Target
+\* second coverage target: an advance purchase accepted while the subscription version that lives on is still waiting
+\* for the next epoch (after an upgrade)
+Target2 == /\ Len(hist) > 0 /\ hist[Len(hist)].a = "adv"
+           /\ \E c \in Consumers : \E v \in DOMAIN sv[c] : v > now /\ sv[c][v].d.fut.on
+NoTarget2 == ~Target2
 \* C12
 CuBounded == \A c \in Consumers : SubOn(c) => (CurSub(c).cuL >= 0 /\ CurSub(c).cuL <= CurSub(c).cuT)
 \* (a subscription whose removal is pending until the next epoch may show left = 0)
